@@ -12,7 +12,7 @@ CONF = {
         "level_note": "Trusted: the 10-line bit-serial reference in harness/fitmodel/base.go. Not assumed: that a multi-byte Write is the composition of single-byte steps (an independently written change, seeded/C14-c, broke exactly that for a 2^-64 class of inputs; the embedded-sums family was added for it, other coincidences of that kind could still escape).",
         "quick": {"checks": 3000, "timeout": 120},
         "thorough": {"checks": 300000, "timeout": 600},
-        "rule": "embedded-sums: 50 per rapid case of data || own CRC little-endian || 0-16 zero bytes || tail, 8-byte aligned or not, written whole or split once. enumerated: every (16-bit register state, input byte) pair, the state reached through the public API "
+        "rule": "large-writes: a fixed list (lengths 256, 4096, 32768, 65536, 131072, 196608, 2^20, each -1/0/+1) and up to 60 (thorough 3000) drawn lengths up to 300000 or 2^k+-2, written in one Write and in pieces cut around 64 KiB offsets; the data is a xorshift stream given by its seed; non-trivial = a single write of 64 KiB or more. embedded-sums: 50 per rapid case of data || own CRC little-endian || 0-16 zero bytes || tail, 8-byte aligned or not, written whole or split once. enumerated: every (16-bit register state, input byte) pair, the state reached through the public API "
                 "by a 2-byte prefix (bijection computed with the bit-serial reference); each pair is distinct and counted "
                 "non-trivial. generated: byte strings of 0..5000 bytes with 0..8 write boundaries (empty writes allowed) "
                 "and a Reset point; non-trivial = at least 3 write pieces, distinct by fingerprint of (data, cuts, reset). "
@@ -42,7 +42,7 @@ CONF["C01"] = {
     "level_note": "Trusted: recover() sees every panic on the calling goroutine (the library starts none); readers that violate io.Reader (0,nil forever) are outside the domain. Multi-field interactions are sampled, not enumerated.",
     "quick": {"checks": 6000, "timeout": 600, "shrinktime": "10s"},
     "thorough": {"checks": 40000, "shards": 8, "timeout": 3000, "shrinktime": "30s", "fuzz": {"target": "FuzzDecodeAll", "seconds": 150}},
-    "rule": "grid: file = header + file_id + one definition with one field (num, size, base byte) in one byte order + one data record + CRC; every cell is distinct; non-trivial = Decode accepted the definition and the field is a profile field (a value is stored by reflection). mutants: rapid-drawn structural mutations (sizes, base bytes, field numbers, message numbers, byte order, local types, duplicate/drop/swap/truncate records, developer flags, 255-field definitions, header fields) of generated streams and of repository .fit files, CRC/size repaired 70% of the time, plus raw byte strings; read through whole/1-byte/fixed/list/data+EOF chunkings; non-trivial = DecodeHeader accepts the input (it got past the header); distinct by fingerprint of the bytes.",
+    "rule": "chain-carry: two-member chains whose second member uses a local type only the first defined, for every known message number and 4 unknown ones x local types {0,1,5,15} x 3 second-member shapes, through all six entry points; one mutant in eleven is a chain of 2-3 images whose later members are variants of the first (definitions stripped, file_id data record dropped, spec mutations). grid: file = header + file_id + one definition with one field (num, size, base byte) in one byte order + one data record + CRC; every cell is distinct; non-trivial = Decode accepted the definition and the field is a profile field (a value is stored by reflection). mutants: rapid-drawn structural mutations (sizes, base bytes, field numbers, message numbers, byte order, local types, duplicate/drop/swap/truncate records, developer flags, 255-field definitions, header fields) of generated streams and of repository .fit files, CRC/size repaired 70% of the time, plus raw byte strings; read through whole/1-byte/fixed/list/data+EOF chunkings; non-trivial = DecodeHeader accepts the input (it got past the header); distinct by fingerprint of the bytes.",
     "assumptions": ["recover() on the calling goroutine observes every panic of the library", "a decode of a <20 KiB input that takes more than 20 s is a hang"],
 }
 
@@ -67,7 +67,7 @@ CONF["C05"] = {
     "level_note": "Trusted: harness/fitmodel.Parse and the bitwise CRC; the mapping File value -> wire bytes (strings cut to length-1 and NUL padded, arrays cut/padded to the profile length, local times as wall-clock seconds). An Encode error with nothing written is outside this property (counted).",
     "quick": {"checks": 3000, "timeout": 300, "shrinktime": "10s"},
     "thorough": {"checks": 100000, "timeout": 1500, "shards": 8, "shrinktime": "30s"},
-    "rule": "one file in six has a long slot (256-600 sparse messages, a field of their own on messages 255/256/511/512/first/last). files: rapid GenFile (file type, header size, protocol, byte order, 0..4 messages per slice slot, each field set with probability 25-50% to boundary-biased values, strings and arrays sometimes longer than the profile length); non-trivial = a slice slot holding at least 2 messages with different sets of set fields (group definition is a proper union); distinct by fingerprint of the spec. empty+all-invalid: every file type x header size x byte order, empty and with one all-invalid message per slot.",
+    "rule": "big-file: activities with 2300 and 4700 records (data sections beyond 64 and 128 KiB) in both byte orders; local timestamps are drawn in fixed zones and in ten tz-database Locations (daylight saving, 30-minute shifts, changed standard offsets); strings include U+FFFD and the first/last code point of each UTF-8 length. one file in six has a long slot (256-600 sparse messages, a field of their own on messages 255/256/511/512/first/last). files: rapid GenFile (file type, header size, protocol, byte order, 0..4 messages per slice slot, each field set with probability 25-50% to boundary-biased values, strings and arrays sometimes longer than the profile length); non-trivial = a slice slot holding at least 2 messages with different sets of set fields (group definition is a proper union); distinct by fingerprint of the spec. empty+all-invalid: every file type x header size x byte order, empty and with one all-invalid message per slot.",
     "assumptions": ["fitmodel.Parse implements the FIT file grammar", "Files are built with NewHeader/NewFile/NewXMsg and exported fields only"],
 }
 CONF["C06"] = {
@@ -115,7 +115,7 @@ CONF["C10"] = {
     "level_note": "Trusted: the counting reader sits directly under the library (no read-ahead layer in between); files carry exactly one file_id message. Record.Distance from compressed_speed_distance is left out of chain-vs-single comparisons while finding K1 is open.",
     "quick": {"checks": 700, "timeout": 400, "shrinktime": "10s"},
     "thorough": {"checks": 20000, "timeout": 2400, "shards": 8, "shrinktime": "30s"},
-    "rule": "chains: 1..4 valid files x a drawn chunking x 0..20 sentinel bytes (15%+ with a byte of the first data area corrupted = failing-decode variant); non-trivial = a chain of at least 2 files read with a chunking that does not respect frame boundaries, or a file larger than the decoder's 4096-byte buffer; distinct by fingerprint of (files, chunking). corpus: every repository file that is one valid frame x 6 standard chunkings x alone/doubled.",
+    "rule": "aligned: data sizes 4096, 8192, 12288, 32768, 65536 each -3..+3 bytes (filler records in front of a fixed stream) x 6 standard chunkings x alone/doubled with 5000 sentinel bytes; one generated file in ten is sized the same way. chains: 1..4 valid files x a drawn chunking x 0..20 sentinel bytes (15%+ with a byte of the first data area corrupted = failing-decode variant); non-trivial = a chain of at least 2 files read with a chunking that does not respect frame boundaries, or a file larger than the decoder's 4096-byte buffer; distinct by fingerprint of (files, chunking). corpus: every repository file that is one valid frame x 6 standard chunkings x alone/doubled.",
     "assumptions": ["gen.Reader counts delivered bytes exactly"],
 }
 CONF["C11"] = {
@@ -149,7 +149,7 @@ CONF["C13"] = {
     "level_note": "Trusted: reference interpreter slot model; messages are chosen among those the file type holds so that values are observable.",
     "quick": {"checks": 1200, "timeout": 300, "shrinktime": "10s", "steps": 40},
     "thorough": {"checks": 40000, "timeout": 1800, "shards": 8, "shrinktime": "30s", "steps": 60},
-    "rule": "machine actions also include redefineVariant (same definition with only the byte order flipped / one field dropped / field list reversed); chained-undefined: 20 two-file chains in which the second file uses a local type only the first defined. machine: rapid t.Repeat over actions define(local 0-15), data(defined local), compressedData(defined local 0-3), dataUndefined (ends the history), invariant = decode-and-compare after each step (each invariant run is one evaluation); non-trivial history = at least 3 local types defined, a redefinition that changes message or byte order, and a compressed header on local type 1-3; distinct by fingerprint of the final stream. undefined: the 16+4 never-defined local types. slot-independence: one inserted definition per history.",
+    "rule": "long-lived: up to 30 (thorough 400) streams in which 1-3 local types are defined once and used throughout while the other local types are redefined until the file holds 800..12500 field definitions; non-trivial = more than 4096 field definitions in one file. machine actions also include redefineVariant (same definition with only the byte order flipped / one field dropped / field list reversed); chained-undefined: 20 two-file chains in which the second file uses a local type only the first defined. machine: rapid t.Repeat over actions define(local 0-15), data(defined local), compressedData(defined local 0-3), dataUndefined (ends the history), invariant = decode-and-compare after each step (each invariant run is one evaluation); non-trivial history = at least 3 local types defined, a redefinition that changes message or byte order, and a compressed header on local type 1-3; distinct by fingerprint of the final stream. undefined: the 16+4 never-defined local types. slot-independence: one inserted definition per history.",
     "assumptions": ["reference interpreter"],
 }
 CONF["C16"] = {
@@ -223,7 +223,7 @@ CONF["C08"] = {
     "level_note": "Trusted: the digest covers everything observable through the public surface. record.distance derived from compressed_speed_distance is left out while finding K1 is open (K1 is reproduced by a dedicated two-call history on every run).",
     "quick": {"checks": 150, "timeout": 400, "shrinktime": "10s", "steps": 30},
     "thorough": {"checks": 4000, "timeout": 2400, "shards": 8, "shrinktime": "30s", "steps": 60},
-    "rule": "call kinds also include encodebad (a File with a non-UTF-8 string: Encode fails part-way) and encodefw (a writer that refuses the data); decode-with-options calls share one package-level options slice; the pool also holds 8 streams whose local timestamps differ in zone offset by seconds, out-of-domain Files and byte arrays longer/shorter than the profile length. pool (drawn from the seed): repository files up to 6 kB, 16 generated streams, 4 streams with accumulating component sources, 4 chains, 12 generated Files. histories: rapid t.Repeat over the 6 call kinds + repeatLast with drawn inputs, each step compared with its fresh-process baseline (one evaluation per step); non-trivial = a history of at least 3 calls in which a call is preceded by a different call; distinct by fingerprint of the op list. encode-across-processes: every (File, order) in a second fresh process.",
+    "rule": "the pool also holds 20 inputs that are rejected at each decoding stage (cut inside the header after a legal size byte, at its end, inside the records, inside the CRC; illegal size byte; wrong CRC) and the call kind decodefault (Decode through a reader that fails with an error of its own, different per input, after 1..200 bytes; the result records the text and errors.Is against that cause). call kinds also include encodebad (a File with a non-UTF-8 string: Encode fails part-way) and encodefw (a writer that refuses the data); decode-with-options calls share one package-level options slice; the pool also holds 8 streams whose local timestamps differ in zone offset by seconds, out-of-domain Files and byte arrays longer/shorter than the profile length. pool (drawn from the seed): repository files up to 6 kB, 16 generated streams, 4 streams with accumulating component sources, 4 chains, 12 generated Files. histories: rapid t.Repeat over the 6 call kinds + repeatLast with drawn inputs, each step compared with its fresh-process baseline (one evaluation per step); non-trivial = a history of at least 3 calls in which a call is preceded by a different call; distinct by fingerprint of the op list. encode-across-processes: every (File, order) in a second fresh process.",
     "assumptions": ["a freshly started process has no library state"],
 }
 CONF["C09"] = {
@@ -235,7 +235,7 @@ CONF["C09"] = {
     "level_note": "Trusted: Go race detector (no false positives); the program keeps inputs independent by construction (each call builds its own reader/File). Campaign A draws only inputs that do not feed the package-level component accumulators: any race report there is a violation. Campaign B draws inputs that do; a report whose two access stacks both start in uint32Accumulator.accumulate / RecordMsg.expandComponents is finding K1, anything else is a violation.",
     "quick": {"checks": 8, "timeout": 600, "shrinktime": "20s"},
     "thorough": {"checks": 500, "timeout": 3000, "shrinktime": "60s"},
-    "rule": "every program runs in a fresh worker process in which it is the first use of the library (the sequential baseline is computed afterwards); call kinds as in C08, including failing Encode calls and shared option values. each rapid case is one program: G in 2..16 goroutines, each 5..40 calls drawn from the 6 call kinds on pool inputs (campaign A: inputs without accumulating sources, B: with), released together by a barrier under a drawn GOMAXPROCS; all programs are counted non-trivial only if distinct by fingerprint; the class 'program with overlapping same-kind calls' (measured with per-call timestamps) shows how many actually overlapped.",
+    "rule": "inputs include the 20 rejected-at-each-stage inputs and the decodefault call kind of C08 (calls that fail inside the header overlap in almost every program). every program runs in a fresh worker process in which it is the first use of the library (the sequential baseline is computed afterwards); call kinds as in C08, including failing Encode calls and shared option values. each rapid case is one program: G in 2..16 goroutines, each 5..40 calls drawn from the 6 call kinds on pool inputs (campaign A: inputs without accumulating sources, B: with), released together by a barrier under a drawn GOMAXPROCS; all programs are counted non-trivial only if distinct by fingerprint; the class 'program with overlapping same-kind calls' (measured with per-call timestamps) shows how many actually overlapped.",
     "assumptions": ["race detector soundness for the executed schedules", "schedules are sampled by the Go scheduler"],
 }
 
@@ -247,7 +247,7 @@ CONF["C19"] = {
     "level_note": "Trusted: harness/wb (zip/XML reader independent of tealeg/xlsx), its reading of names, base types, array flags, lengths and kinds; go/types. 'Compiles together with the support code' is decided on the generated side only: even the stock workbooks do not build with today's file_types.go (it needs messages of SDK 21.115), so type errors located in hand-written files are counted, not judged. Flags -hrst, -timestamp, -test are not part of the property.",
     "quick": {"checks": 2, "timeout": 600, "shrinktime": "30s"},
     "thorough": {"checks": 40, "timeout": 3000, "shrinktime": "120s"},
-    "rule": "cover: 3 selections per workbook (row number mod 3, plus everything depending on a disabled row) that together disable every enabled row once; input forms xlsx + -sdk, SDK zip, SDK zip named for another release + -sdk. stock: the 5 workbooks x {xlsx with -sdk, FitSDKRelease zip}. selections: 8 per rapid case, each = workbook x mode (a few rows / a share of 5-60% of all rows / most of one message / rows involved in dependencies) closed under dependencies; non-trivial = at least one row disabled and at least one dependency re-enabled by the closure; distinct by fingerprint of (version, disabled rows).",
+    "rule": "of the two runs on every selection the first writes into an empty directory and the second over existing, longer generated files (the repository's own, padded with comment lines to 1.5 MB); the outputs must be byte-identical. cover: 3 selections per workbook (row number mod 3, plus everything depending on a disabled row) that together disable every enabled row once; input forms xlsx + -sdk, SDK zip, SDK zip named for another release + -sdk. stock: the 5 workbooks x {xlsx with -sdk, FitSDKRelease zip}. selections: 8 per rapid case, each = workbook x mode (a few rows / a share of 5-60% of all rows / most of one message / rows involved in dependencies) closed under dependencies; non-trivial = at least one row disabled and at least one dependency re-enabled by the closure; distinct by fingerprint of (version, disabled rows).",
     "assumptions": ["dependency model: component targets and sub-field reference fields of enabled rows (validated: single-row disabling of workbook 21.40 fails for exactly those rows)"],
 }
 
